@@ -448,6 +448,13 @@ func gateBlockingOps(src string) (string, error) {
 			if as, ok := s.Init.(*ast.AssignStmt); ok && len(as.Rhs) == 1 && isWaitCall(as.Rhs[0]) {
 				return as.Rhs[0].(*ast.CallExpr).Lparen, true
 			}
+		case *ast.ReturnStmt:
+			// return zero, eg.Wait()
+			for _, r := range s.Results {
+				if isWaitCall(r) {
+					return r.(*ast.CallExpr).Lparen, true
+				}
+			}
 		}
 		return token.NoPos, false
 	}
